@@ -617,7 +617,7 @@ func play(t *testing.T, out *vh.Out, idx int, s scenario) {
 	wk0, _, _ := libGoroutines()
 	out.Emit(M{"scn": idx, "i": 0, "t": hnet.NowMs(), "a": "reset", "name": s.Name,
 		"cfg": M{"qcap": qcap, "nw": nw, "gthr": gthr, "nv": nv, "router": router, "tv": d.tv, "vals": vl,
-			"qcapReal": pr.q.Cap(), "gthrReal": pr.g.Cap(), "nwReal": int(pr.nw.Int()), "wk": wk0}})
+			"sendCap": reflect.ValueOf(w.NUT).Elem().FieldByName("sendMsg").Cap(), "qcapReal": pr.q.Cap(), "gthrReal": pr.g.Cap(), "nwReal": int(pr.nw.Int()), "wk": wk0}})
 
 	settle := func() { hnet.Settle(15 * time.Millisecond) }
 	message := func(p, name string) *pb.Message {
